@@ -1,6 +1,7 @@
 """C18: nested containers keep the root's family; attribute access equals item access."""
 import copy
 import keyword
+import os
 import random
 import traceback
 
@@ -52,9 +53,8 @@ def unit_c18_family(args):
             others = [f for f in ns.families if f.index != fam_index and f.store == "json"]
             for is_dict in (True, False):
                 of = rng.choice(others)
-                ow = World(ns, of, tmp + "_o")
-                import os
-                os.makedirs(tmp + "_o", exist_ok=True)
+                os.makedirs(os.path.join(tmp, "_o"), exist_ok=True)
+                ow = World(ns, of, os.path.join(tmp, "_o"))
                 foreign_d = ow.open(True, 7, {"f": {"g": [1, {"h": 2}]}, "l": [[1], {"m": 1}]})
                 foreign_l = ow.open(False, 8, [{"a": [1]}, [2, {"b": 3}]])
                 res_id = 0 if is_dict else 1
@@ -390,14 +390,13 @@ def unit_c11_foreign(args):
     n = 0
     try:
         drive.reset_class_state(ns)
-        import os
         from oracles import fam_forbidden
         with drive.Scratch() as tmp:
             world = World(ns, fam, tmp)
             others = [f for f in ns.families if f.index != fam_index and f.store == "json"]
             for of in others:
-                os.makedirs(tmp + "_o%d" % of.index, exist_ok=True)
-                ow = World(ns, of, tmp + "_o%d" % of.index)
+                os.makedirs(os.path.join(tmp, "_o%d" % of.index), exist_ok=True)
+                ow = World(ns, of, os.path.join(tmp, "_o%d" % of.index))
                 src_d = ow.open(True, 7, {"s": {"k": 1, "in": {"z": [1]}}, "rows": [{"a": 1}, [2]]})
                 src_l = ow.open(False, 8, [{"a": {"b": 1}}, [{"c": 2}]])
                 x = world.open(True, 0)
